@@ -74,6 +74,74 @@ def t_generator_once():
     return first, second, list(gen(4)), sum(x for x in range(5) if x % 2), any(x > 3 for x in range(3)), all(x < 3 for x in range(3))
 
 
+def t_iterators_once():
+    z = zip([1, 2, 3], "abc"); a = list(z); b = list(z)
+    m = map(str, [1, 2]); c = list(m); d = list(m)
+    e = enumerate("xy"); f = list(e); g = list(e)
+    ch = itertools.chain([1], [2, 3]); h = list(ch); i = list(ch)
+    gen = (k for k in range(5)); r1 = 2 in gen; r2 = 1 in gen; rest = list(gen)
+    it = iter([1, 2, 3]); s1 = [x for x in it if x < 2]; s2 = list(it)
+    rv = reversed([1, 2, 3]); t1 = list(rv); t2 = list(rv)
+    short = list(zip([1, 2, 3], [4]))
+    pw = list(itertools.pairwise([1, 2, 3, 4]))
+    total = 0
+    src = (v for v in [1, 2, 3])
+    for v in src:
+        total += v
+    again = sum(src)
+    return a, b, c, d, f, g, h, i, r1, r2, rest, s1, s2, t1, t2, short, pw, total, again
+
+
+def t_operators_on_bool():
+    return ~True, ~False, True + True, -True, True == 1, 2 == True, not 0, not -1, ~0, True & False, True | False, True ^ True, 1 if [] else 2, \
+        not 1 == 2, not (1 == 2), (not 1) == 2, -2 ** 2, (-2) ** 2, 1 < 2 == 2, 1 & 3 == 1, (1 & 3) == 1, [0] * 2 == [0, 0]
+
+
+def t_aliasing():
+    row = [0] * 3
+    grid = [row] * 2
+    grid[0][1] = 5
+    fresh = [[0] * 3 for _ in range(2)]
+    fresh[0][1] = 5
+    base = [1, 2]
+    def keep(xs=base):
+        xs.append(len(xs))
+        return xs
+    keep(); keep()
+    a = [1, 2, 3]
+    b = a
+    b += [4]
+    c = a
+    c = c + [5]
+    t = (1, 2)
+    u = t
+    u += (3,)
+    d = {"k": [1]}
+    e = dict(d)
+    e["k"].append(2)
+    import copy
+    f = copy.deepcopy(d)
+    f["k"].append(3)
+    return grid, fresh, base, a, b, c, t, u, d, e, f
+
+
+def t_mutation_while_iterating():
+    xs = [1, 2, 3, 4, 5, 6]
+    for x in xs:
+        if x % 2 == 0:
+            xs.remove(x)
+    ys = [1, 2, 3, 4]
+    for y in list(ys):
+        if y % 2 == 0:
+            ys.remove(y)
+    d = {"a": 1, "b": 2, "c": 3}
+    del d["a"]
+    d["a"] = 9
+    order = list(d)
+    srt = sorted([(1, "b"), (0, "z"), (1, "a")], key=lambda t: t[0])
+    return xs, ys, order, srt, "a b  c".split(" "), "a b  c".split(), "xxabcxx".strip("x"), "0x10".lstrip("0x"), "abc".strip("cba")
+
+
 def t_str_methods():
     s = " Ab-cd,ef "
     return [s.strip(), s.split(","), s.lower(), s.upper(), s.find("cd"), s.find("zz"), "a".isalpha(), "1".isalpha(), "12".isdigit(), "a1".isalnum(),
@@ -419,7 +487,7 @@ def t_walrus_ternary_star():
     return out
 '''
 
-TESTS = ["t_floor_mod", "t_pow_shift_bits", "t_slices", "t_chained", "t_defaults", "t_closure", "t_generator_once", "t_str_methods", "t_str_format",
+TESTS = ["t_floor_mod", "t_pow_shift_bits", "t_slices", "t_chained", "t_defaults", "t_closure", "t_generator_once", "t_iterators_once", "t_operators_on_bool", "t_aliasing", "t_mutation_while_iterating", "t_str_methods", "t_str_format",
          "t_fstring", "t_str_conv", "t_list_dict_set", "t_collections", "t_sorting_minmax", "t_control", "t_unpack_aug", "t_classes",
          "t_class_attribute_counter", "t_lru_cache", "t_itertools_math", "t_math", "t_math_rounding", "t_none_identity", "t_global_lookup",
          "t_recursion_depth", "t_raise_custom", "t_exception_text", "t_finally_paths", "t_nested_scopes", "t_walrus_ternary_star"]
